@@ -23,6 +23,11 @@ FRESH_CTX = not _os.environ.get('PYVC_NO_FRESH_CTX')
 CONCRETISE = not _os.environ.get('PYVC_NO_CONCRETISE')
 FEAS_REDUCED = not _os.environ.get('PYVC_NO_FEAS_REDUCED')
 FEAS_SECOND_MS = int(_os.environ.get('PYVC_FEAS_SECOND_MS', '300'))
+# per-function solver economy (set by verify_function / verify_lemma): once two obligations of a function have come back
+# `unknown` after the whole retry ladder, or the function has used its wall-clock budget, the remaining obligations get
+# the short attempts only.  An `unknown` is never a verdict about the code (exit 2, or a ledger regression on changed
+# source); this only keeps a check on a changed tree from running for half an hour.
+FN_STATE = {'start': 0.0, 'unknown': 0, 'budget_s': 1e9}
 _REC_CACHE = {}
 _REC_KEEP = []      # keeps the formulas alive so that ids are not reused
 
@@ -380,10 +385,11 @@ class Run:
             if DEBUG_DUMP:
                 with open(DEBUG_DUMP + '.unknown', 'w') as fh:
                     fh.write(sol.to_smt2())
+            economy = FN_STATE['unknown'] >= 2 or time.time() - FN_STATE['start'] > FN_STATE['budget_s']
             # second back end: the SMT-LIB text of the same query given to /usr/bin/z3 (4.8.12), whose sequence
             # solver decides many small seq + recursive-function queries at once on which 5.1 gives up.
             # Only `unsat` is taken from it (sound: the query is the same text); anything else falls through.
-            if second_backend_unsat(sol, max(4, self.timeout_ms // 2000)):
+            if not economy and second_backend_unsat(sol, max(4, self.timeout_ms // 2000)):
                 status = 'proved'
                 detail = 'backend:z3-4.8.12'
             # z3's search is unstable on some small queries (dropping any one redundant hypothesis makes
@@ -393,7 +399,7 @@ class Run:
             variants = [list(reversed(self.pc))]
             for k in list(range(n - 1, max(n - 9, -1), -1)) + list(range(0, min(4, n))):
                 variants.append(self.pc[:k] + self.pc[k + 1:])
-            for hyps in (variants if status == 'unknown' else []):
+            for hyps in (variants if status == 'unknown' and not economy else []):
                 s2 = z3.Solver()
                 s2.set('timeout', max(2000, self.timeout_ms // 8))
                 s2.add(hyps)
@@ -402,7 +408,9 @@ class Run:
                     status = 'proved'
                     detail = 'proved from a subset / reordering of the hypotheses after a timeout'
                     break
-            if status == 'unknown' and self.timeout_ms > 4000:
+            if status == 'unknown' and economy:
+                detail = (detail or '') + ' (short attempts only: earlier obligations of this function were left open / function budget used)'
+            if status == 'unknown' and self.timeout_ms > 4000 and not economy:
                 # last resort: the full budget on the original query
                 s3 = self._solver(z3.Not(claim), self.timeout_ms)
                 r3 = s3.check()
@@ -416,6 +424,8 @@ class Run:
                         model = None
                 else:
                     detail = s3.reason_unknown()
+        if status == 'unknown':
+            FN_STATE['unknown'] += 1
         secs = time.time() - t0
         self.solver_secs += secs
         ob = Obligation(label, kind, status, model=self.extract_model(model) if model is not None else None,
